@@ -21,7 +21,7 @@ PROP = dict(
                        "Comdex.C05.pool_buy_orders_within_reserves_and_curve",
                        "Comdex.C05.pool_sell_orders_within_reserves_and_curve", "Comdex.C05.pool_offers_within_reserves",
                        "Comdex.C05.base_conserved_counterexample"],
-    harness_tests=["TestC05"],
+    harness_tests=["TestC05", "TestC05Keeper"],
     trusted_base=[KERNEL_TB, HARNESS_TB, DEC_TB,
                   "Model/AmmMatch.lean is hand-written from x/liquidity/amm/{match,orderbook,util,order}.go and "
                   "x/liquidity/types/order.go (HasPriority); tied by running the real NewOrderBook / Match / MatchAtSinglePrice / "
